@@ -258,12 +258,14 @@ class Sel(Family):
                                     self.numcol([p[1] for p in pairs]), True, pre)
         # ---------------- B. range x categorical ----------------
         for k in range(1, 6):
-            cols = list(self.label_sets(k, rng, 6 if not thorough else 30, k <= 3 or (thorough and k <= 4)))
+            cols = list(self.label_sets(k, rng, 6, k <= 3 or thorough))   # thorough: every order, k = 1..5
             for ci, labs in enumerate(cols):
                 col = labs + [labs[0]] + ([labs[-1]] if k > 1 else [])      # duplicates
                 edges = H(Fr(-3, 2), k + Fr(1, 2)) + [Fr(1, 4), Fr(7, 8), k - Fr(3, 4)]
                 if ci >= 2 and not thorough:
                     edges = rng.sample(edges, min(len(edges), 6))
+                elif ci >= 8 and thorough:
+                    edges = rng.sample(edges, min(len(edges), 8))
                 ovals = [Fr(i % 2) for i in range(len(col))]
                 ovals[0] = nan
                 for ori in ("x", "y"):
